@@ -323,11 +323,11 @@ def run(rep, tier):
     facts4 = get_facts('K4')
     rep.unit(facts4)
     clause_d(facts4, rep)
+    facts3 = get_facts('K3')
+    rep.unit(facts3)
+    clause_e(facts3, rep, ('::sse::',), min_returns=1)
     if tier == 'thorough':
         clause_b(facts2, rep, tier)
-        facts3 = get_facts('K3')
-        rep.unit(facts3)
-        clause_e(facts3, rep, ('::sse::',), min_returns=1)
     rep.trust('clang 14 front end', 'Intel semantics of loadu / cmpeq / movemask / and / BZHI (keeps the low n bits)', 'page size 4096')
     rep.assumptions += [
         'decides the page guard, bounds and byte coverage of InlinedMemcmpEq / InlinedMemcmp on the all-equal path for every length up to the stated bound, the length guards of the lookup and the comparator shape',
